@@ -5,8 +5,8 @@ CONSTANTS
   Ops = {o1, o2}
   Kind <- KindSSB
   FdOf <- FdSame
-  Dir <- DirR
+  Dir <- DirRW
   Fds = {1}
   Eager = FALSE
 SPECIFICATION FairSpec
-PROPERTIES CancelDelivered
+PROPERTIES Served
